@@ -145,6 +145,30 @@ def client_versions(prop, tier, seed, verdict, cov):
             verdict.note(f"broker-side violation of {p} observed while checking {prop} (client versions): {why} (record {idx})")
 
 
+def handshake(prop, tier, seed, verdict, cov):
+    """C12, first sentence: the handshake table (spec/Handshake.tla), checked exhaustively by TLC and
+    replayed row by row on the real Acceptor and the real ClientBuilder."""
+    res = vlib.tlc_mc("Handshake.tla", "MC_Handshake.cfg", workers=2, timeout=300)
+    cov["states"] += res["distinct"]
+    cov["transitions"] += res["generated"]
+    cov.setdefault("mc", []).append(dict(config="MC_Handshake.cfg", distinct=res["distinct"], generated=res["generated"],
+                                         depth=res["depth"], wall_s=res["wall_s"], complete=True))
+    if not res["ok"]:
+        verdict.violation("the handshake table does not have its defining properties", dict(kind="tlc-mc", module="Handshake.tla", config="MC_Handshake.cfg"))
+    wd = vlib.workdir(f"{prop}-{tier}")
+    path = os.path.join(wd, "handshake.ndjson")
+    summ = vlib.run_driver("handshake", [path, seed])
+    tr = vlib.tlc_trace("Trace_Handshake.tla", "Trace_Handshake.cfg", path)
+    if not tr["consumed"]:
+        raise vlib.ToolError("handshake records were not consumed")
+    recs = vlib.read_ndjson(path)
+    cov["handshake_rows"] = len(recs)
+    for f in summ.get("flagged", []):
+        verdict.violation("panic or hang during the handshake", dict(kind="handshake", row=f))
+    for (idx, p, why) in tr["violations"]:
+        verdict.violation(why, dict(kind="handshake", row=recs[idx - 1]))
+
+
 def run(prop, tier, seed):
     t0 = time.time()
     verdict = vlib.Verdict(prop)
@@ -153,6 +177,7 @@ def run(prop, tier, seed):
     model_check(prop, tier, seed, verdict, cov)
     fuzz_and_validate(prop, tier, seed, verdict, cov)
     if prop == "C12":
+        handshake(prop, tier, seed, verdict, cov)
         client_versions(prop, tier, seed, verdict, cov)
     have_mc = cov["states"] > 0
     coverage = dict(
@@ -166,6 +191,7 @@ def run(prop, tier, seed):
         records_validated=cov["records"],
         messages_sent=cov["messages_sent"],
         conformance_drifts=cov["drift"],
+        handshake_rows_replayed=cov.get("handshake_rows", 0),
         client_version_runs=cov.get("client_version_runs", 0),
         client_version_payloads_to_old_clients=cov.get("client_version_payloads", 0),
         known_findings_reobserved=verdict.known,
